@@ -389,8 +389,27 @@ def load_known():
 # Ctx
 # --------------------------------------------------------------------------
 
+def sweep_stale(max_age_s=6 * 3600):
+    """Remove scratch directories (catii-*) that an earlier, killed run left in the temp dir."""
+    base = os.environ.get("VERIF_SCRATCH") or tempfile.gettempdir()
+    now = time.time()
+    try:
+        names = os.listdir(base)
+    except OSError:
+        return
+    for n in names:
+        if n.startswith("catii-"):
+            p = os.path.join(base, n)
+            try:
+                if now - os.path.getmtime(p) > max_age_s:
+                    shutil.rmtree(p, ignore_errors=True)
+            except OSError:
+                pass
+
+
 class Ctx:
     def __init__(self, prop, tier, seed):
+        sweep_stale()
         self.prop = prop
         self.tier = tier
         self.seed = seed
@@ -415,6 +434,13 @@ class Ctx:
         self.rule = ""
         self._cone = set()
         self._cone_missing = set()
+        import atexit
+        atexit.register(self._cleanup)
+
+    def _cleanup(self):
+        for s in list(self.snapshots.values()):
+            shutil.rmtree(s, ignore_errors=True)
+        shutil.rmtree(self.scratch, ignore_errors=True)
 
     # ---- implementation snapshot -------------------------------------
     def snapshot(self, variant="plain"):
